@@ -242,7 +242,7 @@ func stNormalize(n stNode) stNode { return stJoinNodes(stFlatten(n)) }
 // ---------- evaluation ----------
 
 const (
-	stMaxDepth = 3
+	stMaxDepth = 6
 	stMaxPaths = 128
 )
 
